@@ -116,6 +116,15 @@ def _ref_sig(tok, d, z):
 
 
 def oracle(op: str, out: str):
+    """the property evaluated on the implementation alone; an auxiliary implementation call that raises where the property
+    says it cannot (sum of two curve points, multiple of a curve point) makes the answer unparsable and is reported"""
+    try:
+        return _oracle(op, out)
+    except (ValueError, IndexError, TypeError) as e:
+        return "an auxiliary group operation on curve points raised or returned a malformed value (%s: %s)" % (type(e).__name__, str(e)[:80])
+
+
+def _oracle(op: str, out: str):
     a = op.split(" ")
     k = a[0]
     if k in ("rfc6979", "rfc6979n"):
@@ -360,6 +369,8 @@ def gen(ctx, emit):
         for _ in range(ctx.n(3, 40)):
             emit("rfc6979n %d %d %d" % (n, rng.randrange(1, n), rng.choice([1, two256 - 1, rng.randrange(1, two256)])))
         emit("rfc6979n %d %d %d" % (n, n - 1, two256 - 1))
+        for _ in range(ctx.n(2, 20)):
+            emit("rfc6979_spec %d %d %s" % (n, rng.randrange(1, n), cc_hex(rng, 32)))
         emit("rfc6979n %d %d %d" % (n, n, 1))          # OverflowError only when d does not fit order_size bytes
         emit("rfc6979n %d %d %d" % (n, -1, 1))
     for key, msg in (("0b" * 20, "4869205468657265"), ("-", "-"), ("aa" * 131, "54657374"), ("00" * 64, "ff" * 100), ("01" * 65, "-")):
